@@ -96,7 +96,7 @@ def run_exe(exe, args=(), timeout=60, env=None):
         p = subprocess.run(["bash", "-c", "ulimit -v 8000000; ulimit -c 0; exec \"$0\" \"$@\"", exe] + [str(a) for a in args],
                            stdout=subprocess.PIPE, stderr=subprocess.PIPE, timeout=timeout, env=e)
     except subprocess.TimeoutExpired:
-        return {"status": None, "signal": None, "timeout": True, "stdout": "", "stderr": ""}
+        return {"status": None, "signal": None, "timeout": True, "stdout": "", "stderr": "", "stderr_full": ""}
     rc = p.returncode
     sig = None
     if rc < 0:
@@ -107,7 +107,7 @@ def run_exe(exe, args=(), timeout=60, env=None):
         rc = None
     err = p.stderr.decode("utf-8", "replace")
     return {"status": rc, "signal": sig, "timeout": False, "stdout": p.stdout.decode("utf-8", "replace"),
-            "stderr": err.strip().split("\n")[0][:200] if err.strip() else ""}
+            "stderr": err.strip().split("\n")[0][:200] if err.strip() else "", "stderr_full": err[:4000]}
 
 
 # ---------------------------------------------------------------------------------------
